@@ -10,7 +10,11 @@ import sys, os, json, time, re, random, hashlib, subprocess, importlib, argparse
 from concurrent.futures import ThreadPoolExecutor
 
 VERIF = os.path.dirname(os.path.dirname(os.path.abspath(__file__)))
-COQ = os.path.join(VERIF, 'coq')
+COQ_MAIN = os.path.join(VERIF, 'coq')
+# A tagged run (VERIF_RUN_TAG, used for mutation self-tests and seeded changes beside other runs) works on a
+# PRIVATE copy of the Coq tree, so that regenerated tables / rebuilt .vo files never disturb the shared tree.
+_TAG = os.environ.get('VERIF_RUN_TAG', '')
+COQ = os.path.join(VERIF, 'work', 'coq_' + _TAG) if _TAG else COQ_MAIN
 REPO = os.environ.get('DCMSTACK_REPO', '/repo')
 PY = '/venv/bin/python'
 NCPU = int(os.environ.get('VERIF_JOBS', '16'))
@@ -64,12 +68,32 @@ def ensure_makefile():
             raise RuntimeError('coq_makefile failed: ' + out)
 
 
+def private_tree():
+    if COQ == COQ_MAIN:
+        return
+    os.makedirs(COQ, exist_ok=True)
+    with Lock('.build.lock'):      # do not copy while someone is writing .vo files
+        rc, out = sh(['rsync', '-a', '--delete', '--exclude', '.lia.cache', '--exclude', '.nia.cache', '--exclude', '.nra.cache',
+                      COQ_MAIN + '/', COQ + '/'], 900)
+    if rc != 0:
+        raise RuntimeError('cannot create the private Coq tree: ' + out)
+
+
 def regen_tables():
-    return sh([PY, os.path.join(VERIF, 'tools', 'gen_tables.py'), '--repo', REPO], 120)
+    private_tree()
+    return sh([PY, os.path.join(VERIF, 'tools', 'gen_tables.py'), '--repo', REPO, '--out', os.path.join(COQ, 'Generated')], 120)
 
 
 def make_targets(targets, timeout=2400):
-    with Lock('.build.lock'):
+    lock = '.build.lock' if COQ == COQ_MAIN else '.build.lock.' + _TAG
+    # fast path: nothing to rebuild -> no need to queue behind other people's long builds
+    if os.path.exists(os.path.join(COQ, 'Makefile')) and os.path.exists(os.path.join(COQ, '_CoqProject')):
+        proj = '-Q . DV\n' + '\n'.join(coq_files()) + '\n'
+        if open(os.path.join(COQ, '_CoqProject')).read() == proj:
+            rc, out = sh(['make', '-C', COQ, '-q'] + targets, 300)
+            if rc == 0:
+                return 0, 'up to date'
+    with Lock(lock):
         ensure_makefile()
         return sh(['make', '-C', COQ, '-j%d' % NCPU] + targets, timeout)
 
